@@ -242,7 +242,8 @@ fn twin_inner(c: &TwinCase, ctx: &mut Ctx, a: &mut Sim, b: &mut Sim) -> CaseResu
 						for (i, l) in sim.broadcasts.iter().enumerate() {
 							for t in l.iter() {
 								let id = format!("{}", t.compute_txid());
-								if oa.contains(&id) || ob.contains(&id) {
+								let touches = |v: &Vec<String>| v.iter().any(|k| t.input.iter().any(|i| k.contains(&i.previous_output.to_string())));
+								if touches(&oa) || touches(&ob) {
 									extra += &format!("\n   {} n{} tx {} inputs {:?} outs {} locktime {}", w, i, id, t.input.iter().map(|i| format!("{}:{}", &i.previous_output.txid.to_string()[..8], i.previous_output.vout)).collect::<Vec<_>>(), t.output.len(), t.lock_time);
 								}
 							}
@@ -798,7 +799,7 @@ fn justice_inner(c: &JusticeCase, ctx: &mut Ctx, sim: &mut Sim, phase_cell: &std
 	let rt_key = |phase: &str| if phase == "after-cheater-second-stage" { "monitor-roundtrip-eq/justice-package-split".to_string() } else { format!("monitor-roundtrip-eq/justice/{}", phase) };
 	let step = |h: &mut MonHarvest, sim: &Sim, chain: bool, phase: &str| -> CaseResult {
 		h.step(sim, chain).map_err(|mut f| {
-			f.key = if f.oracle == "monitor-roundtrip-eq" { rt_key(phase) } else { format!("{}/{}", f.key, phase) };
+			f.key = if f.oracle == "monitor-roundtrip-eq" || f.oracle == "monitor-reencode" { rt_key(phase) } else { format!("{}/{}", f.key, phase) };
 			f
 		})
 	};
@@ -959,7 +960,9 @@ fn regress_image_oracle(name: &String, ctx: &mut Ctx) -> CaseResult {
 	ctx.nontrivial();
 	if !same_bytes_modulo_order(&bytes, &b2) {
 		let p = bytes.iter().zip(b2.iter()).position(|(a, b)| a != b).unwrap_or(0);
-		return Err(Failure::new("monitor-reencode", format!("{}: write(read(b)) differs from b beyond ordering ({} vs {} bytes, first difference at byte {})", name, b2.len(), bytes.len(), p)).with_key(format!("monitor-reencode/regress/{}", stem)));
+		// images taken after a justice package split show the listed finding `monitor-roundtrip-eq/justice-package-split`
+		let key = if stem.contains("after-split") { "monitor-roundtrip-eq/justice-package-split".to_string() } else { format!("monitor-reencode/regress/{}", stem) };
+		return Err(Failure::new("monitor-reencode", format!("{}: write(read(b)) differs from b beyond ordering ({} vs {} bytes, first difference at byte {})", name, b2.len(), bytes.len(), p)).with_key(key));
 	}
 	Ok(())
 }
@@ -980,8 +983,8 @@ fn main() {
 		PartSpec {
 			name: "monitors",
 			rule: "pair / line3 worlds with generated traffic, asynchronous persistence, disconnections, force closes, mined blocks and reorgs; after EVERY operation: every monitor image handed to Persist since the last step is read back (all bytes consumed; re-encoding has the same bytes up to order; every 4th image re-read again and `==`), every ChannelMonitorUpdate handed to Watch satisfies read(write(u)) == u and byte-identical re-encoding, read(write(M_k-1)) + update_monitor(U_k) == read(M_k as persisted), every changed live monitor m satisfies read(write(m)) == m, and every third operation one node's ChannelManager is read back from encode() + current monitors (fixed point of channels/payments; equal to the live manager when no peer is connected). Non-trivial: some harvested monitor state is non-quiescent (pending HTLC / update in flight / on-chain event awaiting confirmations / pending claim)",
-			quick_cases: 300,
-			thorough_cases: 8_000,
+			quick_cases: 750,
+			thorough_cases: 30_000,
 			max_shrink: 300,
 		},
 		|| strat(70),
@@ -991,8 +994,8 @@ fn main() {
 		PartSpec {
 			name: "manager-twin",
 			rule: "the same generated prefix is executed in two worlds; in one a generated node is reloaded from its own ChannelManager::encode() and the encodings of its live monitors, in the other it gets the equivalent bounce; then the same generated operations are applied to both, both are driven to quiescence after each, and the public surface is compared: list_channels (every field), list_recent_payments, claimable balances, delivered HTLC / shutdown / error messages, events and broadcasts since the fork (rules in the assumptions). Non-trivial: at the moment of the write the node had pending HTLCs, a monitor update in flight or on-chain claims pending",
-			quick_cases: 250,
-			thorough_cases: 6_000,
+			quick_cases: 600,
+			thorough_cases: 24_000,
 			max_shrink: 300,
 		},
 		twin_strat,
@@ -1002,8 +1005,8 @@ fn main() {
 		PartSpec {
 			name: "corruptions",
 			rule: "one monitor (non-quiescent state preferred), one monitor update and one manager encoding harvested from a generated history: the tail TLV stream is located structurally (unique position whose BigSize length equals the remaining length and whose content is an ascending TLV stream of known types including the always-written ones); unknown odd records (types 43, 1001, 2^48-1; empty / generated value) appended => reads and equals the original; unknown even records (42, 1000, 2^32-2) => Err; strict prefixes (24 generated cut points + the last 8 bytes; all cut points for updates up to 600 bytes) => Err without panic; 40 (manager 20) generated single-byte mutations => classified (labels). Non-trivial: tail located and the monitor state is non-quiescent",
-			quick_cases: 100,
-			thorough_cases: 3_000,
+			quick_cases: 250,
+			thorough_cases: 10_000,
 			max_shrink: 200,
 		},
 		corrupt_strat,
@@ -1013,8 +1016,8 @@ fn main() {
 		PartSpec {
 			name: "graph-scorer",
 			rule: "node 0's NetworkGraph of a pair / line3 world receives the world's real channels (ids, funding keys, capacities, policies) plus generated gossip (full and partial channel announcements with/without capacity, channel updates, node announcements with all address kinds, permanent channel / node failures, stale pruning, rapid-sync timestamp): read(write(g)) == g, same rapid-sync timestamp, same bytes up to order. A ProbabilisticScorer over that graph receives generated payment_path_failed / successful / probe_* / time_passed sequences over connected paths: write -> read -> write is byte-identical after sorting entries by channel, and the re-read scorer gives the same estimated_channel_liquidity_range, historical bucket read-outs and channel_penalty_msat for a generated battery of (channel, direction, amount, in-flight) usages and generated fee parameters, right after the round trip and after the same further updates. Non-trivial: some historical bucket is non-empty",
-			quick_cases: 400,
-			thorough_cases: 20_000,
+			quick_cases: 1000,
+			thorough_cases: 40_000,
 			max_shrink: 1000,
 		},
 		score_strat,
@@ -1024,8 +1027,8 @@ fn main() {
 		PartSpec {
 			name: "sweeper",
 			rule: "an OutputSweeperSync follows one node of a world through a generated history with force closes, mined blocks and reorgs: it tracks the node's SpendableOutputs (generated delay / static-output exclusion), sees every block, its sweeps enter the world's mempool. After every operation the bytes it persisted are read back (tracked outputs `==` and best block equal to the live sweeper's), and a second sweeper re-read from the previous step's bytes is given the same inputs and must end with the same tracked outputs, tip, sweep result and broadcasts (up to input order / signatures of the sweep transaction). Non-trivial: a sweep transaction awaits its first confirmation or its confirmation threshold",
-			quick_cases: 120,
-			thorough_cases: 3_000,
+			quick_cases: 300,
+			thorough_cases: 12_000,
 			max_shrink: 300,
 		},
 		sweep_strat,
@@ -1033,10 +1036,10 @@ fn main() {
 	);
 	c.part_with(
 		PartSpec {
-			name: "justice-monitors",
+			name: "punishment",
 			rule: "punishment histories on a pair: HTLCs in both directions, the cheater keeps its commitment and second-stage transactions, the HTLCs are resolved off-chain (state revoked), a generated number of blocks later the revoked commitment is confirmed, the victim's justice transactions stay unmined and one of the cheater's second-stage transactions is confirmed first (package split), then generated closing operations; the monitor / update oracles of part `monitors` run after every step. Non-trivial: a justice transaction of the victim is in flight",
-			quick_cases: 40,
-			thorough_cases: 1_500,
+			quick_cases: 100,
+			thorough_cases: 4_000,
 			max_shrink: 200,
 		},
 		justice_strat,
